@@ -183,3 +183,80 @@ Lemma r_mp_atexit_frees_all olen w :
   ev = map (fun _ => AFree olen) (mp_stack (w_pool w)) ++
        (if mp_static (w_pool w) then [] else [AFree (mp_slots (w_pool w) * mpool_ptr_size)]).
 Proof. exact (mp_atexit_frees_all mpool_ptr_size olen w). Qed.
+
+Lemma r_mp_inv_registered w :
+  mp_inv w ->
+  (mp_stack (w_pool w) <> [] \/ w_held w <> [] \/ w_live w <> [] \/
+   mp_static (w_pool w) = false \/ mp_nextid (w_pool w) <> 1) ->
+  mp_state (w_pool w) = 1.
+Proof. exact (mp_inv_registered w). Qed.
+
+Lemma r_mp_exit_handler_registered olen size ops o :
+  0 < size -> N.max size (2 * N.of_nat (length ops)) * 16 < W64 ->
+  exists tr,
+    r_mp_run olen ops (mp_world0 size) o = Ok tr /\
+    forall pre t post, tr = pre ++ t :: post ->
+      mp_inv (ptr_w t) /\
+      reg_calls (pre ++ [t]) = mp_state (w_pool (ptr_w t)) /\
+      ((exists t', In t' (pre ++ [t]) /\ out_ptr (ptr_out t') <> 0) -> reg_calls (pre ++ [t]) = 1).
+Proof. exact (mp_exit_handler_registered mpool_tune_shift olen size ops o). Qed.
+
+Lemma r_mp_exit_returns_all olen size ops o :
+  0 < size -> N.max size (2 * N.of_nat (length ops)) * 16 < W64 ->
+  exists tr,
+    r_mp_run olen ops (mp_world0 size) o = Ok tr /\
+    let wf := mp_final (mp_world0 size) tr in
+    reg_calls tr = mp_state (w_pool wf) /\
+    let '(w', ev) := r_mp_exit olen wf in
+    mp_stack (w_pool w') = [] /\ w_held w' = w_held wf /\
+    Permutation (w_live w') (w_held wf) /\
+    ev = map (fun _ => AFree olen) (mp_stack (w_pool wf)) ++
+         (if mp_static (w_pool wf) then [] else [AFree (mp_slots (w_pool wf) * mpool_ptr_size)]).
+Proof. exact (mp_exit_returns_all mpool_tune_shift olen size ops o). Qed.
+
+(* ---------------- C14: exact failure conditions, whole-run accounting ---------------- *)
+Lemma r_ea_fail_iff op st o x st' o' ev :
+  st_inv st -> ea_op_ok op ->
+  r_ea_step op st o = Ok (x, st', o', ev) ->
+  is_shrink op = false ->
+  (x = ea_err_out op <-> refused ev = true \/ ea_unrep op (st_abs st) = true).
+Proof. exact (ea_fail_iff ea_struct_size op st o x st' o' ev). Qed.
+
+(* the converse of "refused -> error value" is false for the array: resize to 2^63 records of
+   4 bytes returns -1 (ENOMEM) although no request was made, let alone refused *)
+Lemma r_ea_error_without_refusal :
+  let e := {| ea_size := 0; ea_alloc := 0; ea_buf := [] |} in
+  r_ea_step (OResize (2 ^ 63) 4 0) (Some e) all_grant = Ok (XRc false, Some e, all_grant, []).
+Proof. vm_compute. reflexivity. Qed.
+
+Lemma r_eq_fail_iff rl op st o x st' o' ev :
+  qst_inv rl st -> eq_op_ok rl op -> (q_used st + 1) * rl < W ->
+  r_eq_step op st o = Ok (x, st', o', ev) ->
+  op <> QDelete ->
+  (refused ev = true <-> x = YRc false).
+Proof. exact (eq_fail_iff ea_struct_size eq_struct_size rl op st o x st' o' ev). Qed.
+
+Lemma r_spm_fail_iff op st o x st' o' ev :
+  mst_inv st -> spm_op_ok op -> (m_used st + 1) * 8 < W -> (m_next st < INT64_MAX)%Z ->
+  r_spm_step op st o = Ok (x, st', o', ev) ->
+  is_sdelete op = false ->
+  (refused ev = true <-> x = spm_err_out op).
+Proof. exact (spm_fail_iff ea_struct_size eq_struct_size spm_struct_size op st o x st' o' ev). Qed.
+
+Lemma r_eq_run_no_leak rl ops st o tr rest :
+  qst_inv rl st -> Forall (eq_op_ok rl) ops ->
+  (q_used st + N.of_nat (length ops)) * rl < W ->
+  r_eq_run ops st o = Ok tr ->
+  exists h, heap_run (qst_owned ea_struct_size eq_struct_size st ++ rest) (concat (map qtr_ev tr)) = Some h /\
+            Permutation h (qst_owned ea_struct_size eq_struct_size (qtr_final st tr) ++ rest).
+Proof. exact (eq_run_no_leak ea_struct_size eq_struct_size rl ops st o tr rest). Qed.
+
+Lemma r_spm_run_no_leak ops st o tr rest :
+  mst_inv st -> Forall spm_op_ok ops ->
+  m_used st + N.of_nat (length ops) < 2 ^ 60 ->
+  (m_next st + Z.of_nat (length ops) < 2 ^ 60)%Z ->
+  r_spm_run ops st o = Ok tr ->
+  exists h, heap_run (mst_owned ea_struct_size eq_struct_size spm_struct_size st ++ rest)
+                     (concat (map mtr_ev tr)) = Some h /\
+            Permutation h (mst_owned ea_struct_size eq_struct_size spm_struct_size (mtr_final st tr) ++ rest).
+Proof. exact (spm_run_no_leak ea_struct_size eq_struct_size spm_struct_size ops st o tr rest). Qed.
